@@ -813,3 +813,63 @@ def r65(ctx: Ctx) -> RuleReport:
     if not found:
         rep.undecided(key, fi.loc(), 'no copy of g.epidata.get(<second triple>, []) found')
     return rep
+
+
+@rule('R66', 'a list that the same function pops is never indexed at [-1] / popped unless it is known to be non-empty there')
+def r66(ctx: Ctx) -> RuleReport:
+    from ..resolve import facts_ex, view
+    rep = RuleReport('R66', r66.title, floor=1)
+    for fi in ctx.repo.all_functions():
+        popped = {n.func.value.id for n in walk_local(fi.node) if isinstance(n, ast.Call) and isinstance(n.func, ast.Attribute)
+                  and n.func.attr == 'pop' and not n.args and isinstance(n.func.value, ast.Name)}
+        # only lists: the name is bound to a list display / list(...) / reversed copy in this function
+        lists = set()
+        for nm in popped:
+            t = ctx.types.type_of(fi, ast.Name(id=nm, ctx=ast.Load())) if False else None
+            vals = [v for v in ctx.cg.local_assigns(fi).get(nm, []) if isinstance(v, ast.AST)]
+            if any(isinstance(v, (ast.List, ast.ListComp)) or (isinstance(v, ast.Call) and norm(v.func) == 'list') for v in vals):
+                lists.add(nm)
+        if not lists:
+            continue
+        v = view(ctx, fi)
+        for n in walk_local(fi.node):
+            site = None
+            if isinstance(n, ast.Subscript) and isinstance(n.value, ast.Name) and n.value.id in lists and isinstance(n.ctx, ast.Load) \
+                    and try_fold(n.slice) == (True, -1):
+                site = (n, n.value.id, f'{n.value.id}[-1]')
+            if site is None:
+                continue
+            node, nm, what = site
+            facts = facts_ex(ctx, fi, node)
+            nonempty = (nm, True) in facts or (f'not {nm}', False) in facts or (f'len({nm}) > 0', True) in facts \
+                or (f'len({nm}) == 0', False) in facts
+            in_try = False
+            x = node
+            while id(x) in v.pm:
+                x = v.pm[id(x)]
+                if isinstance(x, ast.Try) and any(node is y for b in x.body for y in ast.walk(b)) and any(
+                        h.type is None or 'IndexError' in norm(h.type) or norm(h.type) in ('Exception', 'LookupError') for h in x.handlers):
+                    in_try = True
+            # can a pop() of the same list reach this read without an intervening append?
+            reach = False
+            try:
+                here = v.node_of(node)
+                pops = [v.node_of(c) for c in walk_local(fi.node) if isinstance(c, ast.Call) and isinstance(c.func, ast.Attribute)
+                        and c.func.attr == 'pop' and not c.args and norm(c.func.value) == nm]
+                grow = {v.node_of(c) for c in walk_local(fi.node) if isinstance(c, ast.Call) and isinstance(c.func, ast.Attribute)
+                        and c.func.attr in ('append', 'extend', 'insert') and norm(c.func.value) == nm
+                        and not any(isinstance(a, ast.If) for a in _anc(v.pm, c) if a is not fi.node and not isinstance(a, (ast.For, ast.While)))}
+                for pn in pops:
+                    if v.cfg.path_avoiding([(pn, None)], {here}, lambda nd: nd.id in grow) is not None or pn == here:
+                        reach = True
+            except (KeyError, AnalysisError):
+                reach = True
+            key = f'{fi.module.name}:{fi.qualname}: {what}'
+            if nonempty or in_try:
+                rep.ok(key, fi.loc(node), 'guarded by a non-emptiness test' if nonempty else 'inside try/except IndexError')
+            elif reach:
+                rep.violation(key, fi.loc(node), f'`{what}` is evaluated after `{nm}.pop()` may have emptied the list and nothing tests `{nm}` in between: '
+                              f'markers that close more nodes than are open (as dereification leaves behind) raise IndexError instead of ending the scan')
+            else:
+                rep.ok(key, fi.loc(node), 'no pop() reaches this read')
+    return rep
